@@ -35,7 +35,7 @@ CFG = {
                      "shown / shownCaps (Model/Sgr.lean) as the terminal-level meaning of a vaxis Style",
                      "extractor cmd/C18 for labels / arities / producer call sequences (fails closed); the SGR templates it parses are no longer trusted: "
                      "every template is proved to be what its regenerated format string prints (Lemmas.SgrBytes.b_*)",
-                     "round 4: the numbers of the bounds checks / jumps / selectors under case 38/48/58 of the two [][]int consumers are extracted and pinned (facts_ext_forms), the model is written with them but does not read them; "
+                     "round 4: the numbers of the bounds checks / jumps / selectors under case 38/48/58 of the two [][]int consumers are extracted, READ by the model (Cfg.nums in extColour) and pinned (facts_ext_forms); sgr_total rests on cfgs_nums_ok; "
                      "C02's model of csiDispatch (decodeLoop; tied to the source by C02's csiDispatch_body) for 'the parser never delivers an empty parameter'; "
                      "strings.Split / Cut as modelled by splitB / cutM (decb correspondence on junk bodies)"],
     "assumptions": ["styles are well formed: colours built by IndexColor/RGBColor or default, attribute mask over the seven "
@@ -69,7 +69,7 @@ CFG = {
                   "(quirk_is_replace_colon, quirk_strings, quirk_prints_legacy_forms: legacy = true is what quirks.go does; legacy_quirk_no_effect_ssEncode from the extracted mutability facts; nine "
                   "legacy_quirk_<producer>_<consumer> at token and byte level; legacy_quirk_roundtrip_*; render_frame_read_bytes / legacy_quirk_frame: a rendered frame's SGR+text bytes read back by all three "
                   "consumers under every capability setting); hyperlinks: LinksRestorable is EXACT (roundtrip_ss_links_iff, roundtrip_cells_links_via_ss_iff, links_restorable_iff_clauses).",
-    "level_note": "Proved for all inputs on the model (161 theorems, axioms propext/Classical.choice/Quot.sound only). Fixed in /repo: F48, F35 (round 1), "
+    "level_note": "Proved for all inputs on the model (162 theorems, axioms propext/Classical.choice/Quot.sound only). Fixed in /repo: F48, F35 (round 1), "
                   "F118, F119, F121 (round 2), F122 (round 3: ParseStyledString split a grapheme that straddled the parser's 4096-byte buffer; it now buffers the whole "
                   "string; parse_chunked_cuts_cluster shows the old reader failing on the model). Validated by correspondence only: that the byte-level model is the code "
                   "(encb / encbl: exact producer strings; decb: both string parsers on exact strings incl. junk parameter texts, with the uniseg cluster table, and the "
